@@ -7,6 +7,14 @@ HERE = os.path.dirname(os.path.abspath(__file__))
 
 # property -> (level category, engine/world, technique, level text, level note)
 CHECKS = {
+ "C13": ("exploration", "TRIE",
+   "deterministic seeded model-based simulation with fault injection (restart on durable data after every database commit, garbage collection of other roots, cache flush, proof corruption as a network fault) against a map model and an independent Merkle-Patricia root calculator",
+   "Seeded operation/GC/Cap/restart schedules over trie.Trie/SecureTrie on trie.Database over the simulated disk. Inside each run the durable image is re-read cold after every Database.Commit (all crash points of the batch-atomic disk model). The root oracle is a second MPT implementation pinned to published vectors; proofs are tampered byte by byte. Sampling of schedules, not proof.",
+   "Honest fit: the node-database half (commit/reference/dereference/cap/restart) is a real simulation target; the pure-map half rides along in the same loop. Reference/Dereference/Cap are driven by go-ethereum's GC contract (Dereference/Cap have no production caller here)."),
+ "C19": ("exploration", "TRIE",
+   "deterministic seeded simulation of requester and responder around the real trie/state sync scheduler, responses entering through the downloader's real processNodeData and commit (hook H5b), with response faults (late, twice, never, corrupted, unrequested, regrouped, reordered) and interruption/restart (crash, crash between two puts of a commit, graceful cancel, pivot move)",
+   "Seeded search over source shapes (raw/secure tries, whole states with shared storage/code, validators, delegation blobs, staking records), response schedules and interruption points. The closure invariant (a stored node has all its children/code/blobs stored) is evaluated at every durable write and every put prefix, so a partially filled trie can never be presented as complete; on completion the destination equals the source. Sampling, not proof.",
+   "Stubbed: trieSync.loop/assignTasks/fillTasks (map-ordered), peers and timeouts. The downloader's hash-and-match code and commit are real."),
  "C18": ("exploration", "DLQ",
    "seeded deterministic simulation of the real download queue and peer bookkeeping inside a synctest bubble: the simulator plays header processor, fetcher, remote peers (complete/partial/empty/wrong/reordered/duplicate/unsolicited/stalled), expirer, dropper, importer and clock one call at a time; history oracle on Results plus pool census after every call; bounded-liveness quiet phase",
    "Seeded search over interleavings and peer fault sequences on the real queue (full and fast sync). Results must be gap-free, repeat-free, in order from the origin, each with a body matching the header's tx root, and nothing is released for a block never honestly delivered; after faults stop and one honest peer keeps answering, the range completes within a generous step bound. Sampling, not proof.",
